@@ -179,3 +179,191 @@ Section Sound.
       simpl. rewrite firstn_all in Eg. rewrite Eg, goto_star_app, Hgo in Hg. exact Hg.
   Qed.
 End Sound.
+
+(* ---------- the executable construction only produces valid items ---------- *)
+Lemma item1_eqb_eq (a b : item1) : item1_eqb a b = true <-> a = b.
+Proof.
+  destruct a as ((i, d), t), b as ((j, e), u). simpl. rewrite !andb_true_iff, !Nat.eqb_eq.
+  split; [intros ((-> & ->) & ->); auto | intros H; inversion H; auto].
+Qed.
+
+Lemma insert1_In x y l : In x (insert1 y l) <-> x = y \/ In x l.
+Proof.
+  induction l as [|z l IH]; simpl.
+  - intuition.
+  - destruct (item1_eqb y z) eqn:E.
+    + apply item1_eqb_eq in E. subst. simpl. intuition.
+    + destruct (item1_ltb y z); simpl; rewrite ?IH; intuition.
+Qed.
+
+Lemma sort1_In x l : In x (sort1 l) <-> In x l.
+Proof. induction l as [|y l IH]; simpl; [tauto|]. rewrite insert1_In, IH. intuition. Qed.
+
+Section Exec.
+  Variable rules : list rule.
+  Variable r0 tEND : nat.
+  Notation rule_at := (rule_at rules).
+  Notation first_sym := (first_sym rules).
+  Notation first_str := (first_str rules).
+  Notation lr1_valid := (lr1_valid rules r0 tEND).
+
+  Definition tbl_sound (F : list (nat * list nat)) : Prop :=
+    forall a b, In b (first_of F a) -> first_sym (NT a) b.
+
+  Lemma first_seq_sound F : tbl_sound F -> forall ss b, In b (first_seq rules F ss) -> first_str ss b.
+  Proof.
+    intros HF. induction ss as [|X ss IH]; intros b Hb; cbn [first_seq] in Hb; [contradiction|].
+    destruct X as [t|c].
+    - destruct Hb as [<-|[]]. exists [], (T t), ss. repeat split. constructor.
+    - apply in_app_iff in Hb. destruct Hb as [Hb|Hb].
+      + exists [], (NT c), ss. repeat split. now apply HF.
+      + destruct (nullable rules (NT c)) eqn:En; [|contradiction].
+        destruct (IH b Hb) as (pre & Y & post & -> & Hnu & Hf).
+        exists (NT c :: pre), Y, post. repeat split; auto. cbn [forallb]. now rewrite En.
+  Qed.
+
+  Lemma rule_index' r : In r rules -> exists j, j < length rules /\ rule_at j = r.
+  Proof. intros H. destruct (In_nth _ _ (mkRule 0 []) H) as (i & Hi & E). exists i. auto. Qed.
+
+  Lemma first_step_sound F : tbl_sound F -> tbl_sound (first_step rules F).
+  Proof.
+    intros HF a b Hb. unfold first_of, first_step in Hb. apply in_flat_map in Hb.
+    destruct Hb as ((a', l) & Hin & Hb). simpl in Hb. destruct (Nat.eqb_spec a' a); [|contradiction]. subst a'.
+    apply in_map_iff in Hin. destruct Hin as (a0 & E & _). inversion E; subst a0 l.
+    apply (proj1 (dedup_nat_In _ _)) in Hb. apply in_flat_map in Hb. destruct Hb as (r & Hr & Hb).
+    destruct (Nat.eqb_spec (lhs r) a); [|contradiction].
+    destruct (first_seq_sound F HF _ _ Hb) as (pre & Y & post & Er & Hnu & Hf).
+    destruct (rule_index' r Hr) as (j & Hj & Ej). subst a. rewrite <- Ej in *.
+    eapply fs_nt; eauto.
+  Qed.
+
+  Lemma first_tbl_sound : tbl_sound (first_tbl rules).
+  Proof.
+    unfold first_tbl.
+    assert (G : forall n F, tbl_sound F -> tbl_sound (iter n (first_step rules) F)).
+    { induction n; simpl; auto. intros F HF. apply IHn. now apply first_step_sound. }
+    apply G. intros a b Hb. unfold first_of in Hb. apply in_flat_map in Hb.
+    destruct Hb as ((a', l) & Hin & Hb). apply in_map_iff in Hin. destruct Hin as (a0 & E & _).
+    inversion E; subst. simpl in Hb. destruct (Nat.eqb a' a); contradiction.
+  Qed.
+
+  Lemma first_str_snoc rest a b :
+    first_str (rest ++ [T a]) b ->
+    first_str rest b \/ (forallb (nullable rules) rest = true /\ b = a).
+  Proof.
+    intros (pre & Y & post & E & Hnu & Hf). revert pre E Hnu.
+    induction rest as [|X rest IH]; intros pre E Hnu; simpl in E.
+    - destruct pre as [|p pre].
+      + simpl in E. inversion E; subst. right. split; auto. inversion Hf; auto.
+      + simpl in E. inversion E as [[E1 E2]]. destruct pre; discriminate.
+    - destruct pre as [|p pre]; simpl in E.
+      + inversion E; subst. left. eexists [], _, rest. split; [reflexivity|]. auto.
+      + inversion E as [[E1 E2]]. subst p. simpl in Hnu. apply andb_true_iff in Hnu. destruct Hnu as (HX & Hnu).
+        destruct (IH pre E2 Hnu) as [(pre' & Y' & post' & -> & Hnu' & Hf')|(Hn' & ->)].
+        * left. exists (X :: pre'), Y', post'. repeat split; auto. simpl. now rewrite HX.
+        * right. split; auto. simpl. now rewrite HX.
+  Qed.
+
+  Definition all_valid (g : list symbol) (J : list item1) : Prop :=
+    forall i d a, In (i, d, a) J -> lr1_valid g i d a.
+
+  Section WithF.
+    Variable F : list (nat * list nat).
+    Hypothesis HF : tbl_sound F.
+
+    Lemma predict_valid g it : (let '(i, d, a) := it in lr1_valid g i d a) ->
+      all_valid g (predict rules F it).
+    Proof.
+      destruct it as ((i, d), a). intros Hv j e b Hin. unfold predict in Hin.
+      destruct (nth_error (rhs (rule_at i)) d) as [[t|B]|] eqn:En; try contradiction.
+      apply in_flat_map in Hin. destruct Hin as (j' & Hj' & Hin). apply in_seq in Hj'.
+      destruct (Nat.eqb_spec (lhs (rule_at j')) B); [|contradiction].
+      apply in_map_iff in Hin. destruct Hin as (t & E & Ht). inversion E; subst j e b.
+      apply (proj1 (dedup_nat_In _ _)) in Ht.
+      eapply v_clos; eauto; [lia|].
+      apply first_str_snoc. eapply first_seq_sound; eauto.
+    Qed.
+
+    Lemma closure1_step_valid g J : all_valid g J -> all_valid g (closure1_step rules F J).
+    Proof.
+      intros HJ i d a Hin. unfold closure1_step in Hin. apply sort1_In, in_app_iff in Hin.
+      destruct Hin as [Hin|Hin]; auto. apply in_flat_map in Hin. destruct Hin as (((i', d'), a') & Hit & Hin).
+      apply (predict_valid g (i', d', a') (HJ _ _ _ Hit) _ _ _ Hin).
+    Qed.
+
+    Lemma closure1_valid g K : all_valid g K -> all_valid g (closure1 rules F K).
+    Proof.
+      intros HK. unfold closure1.
+      assert (G : forall n J, all_valid g J -> all_valid g (closure1_fix rules n F J)).
+      { induction n; simpl; auto. intros J HJ. pose proof (closure1_step_valid g J HJ).
+        destruct (Nat.eqb _ _); auto. }
+      apply G. intros i d a Hin. apply (proj1 (sort1_In _ _)) in Hin. auto.
+    Qed.
+
+    Lemma goto1_valid g J X : all_valid g J -> all_valid (g ++ [X]) (goto1 rules F J X).
+    Proof.
+      intros HJ. unfold goto1. apply closure1_valid. intros i d a Hin.
+      apply in_flat_map in Hin. destruct Hin as (((i', d'), a') & Hit & Hin). simpl in Hin.
+      destruct (nth_error (rhs (rule_at i')) d') as [Y|] eqn:En; [|contradiction].
+      destruct (symbol_eqb_spec X Y); [|contradiction]. subst Y. destruct Hin as [E|[]]. inversion E; subst.
+      eapply v_goto; eauto.
+    Qed.
+
+    Lemma add_new1_sub ks : forall seen K, In K (add_new1 ks seen) -> In K ks.
+    Proof.
+      induction ks as [|K0 ks IH]; intros seen K H; simpl in H; [contradiction|].
+      destruct (existsb (state1_eqb K0) seen).
+      - right. eauto.
+      - destruct H as [<-|H]; [now left|right; eauto].
+    Qed.
+
+    Lemma bfs1_valid fuel : forall work seen S1,
+      bfs1 rules fuel F work seen = Some S1 -> incl work seen ->
+      (forall J, In J seen -> exists g, all_valid g J) ->
+      forall J, In J S1 -> exists g, all_valid g J.
+    Proof.
+      induction fuel; intros work seen S1 H HI Inv J HJ; simpl in H.
+      - destruct work; [|discriminate]. inversion H; subst. auto.
+      - destruct work as [|J0 work'].
+        + inversion H; subst. auto.
+        + apply (IHfuel _ _ _ H); auto.
+          * intros x Hx. apply in_app_iff in Hx. apply in_app_iff. destruct Hx as [Hx|Hx]; auto.
+            left. apply HI. now right.
+          * intros J1 HJ1. apply in_app_iff in HJ1. destruct HJ1 as [HJ1|HJ1]; auto.
+            apply add_new1_sub in HJ1. apply in_map_iff in HJ1. destruct HJ1 as (X & <- & _).
+            destruct (Inv J0 (HI J0 (or_introl eq_refl))) as (g & Hg).
+            exists (g ++ [X]). now apply goto1_valid.
+    Qed.
+  End WithF.
+
+  Theorem states1_valid fuel S1 J :
+    states1 rules r0 tEND fuel = Some S1 -> In J S1 -> exists g, all_valid g J.
+  Proof.
+    unfold states1. intros H HJ.
+    apply (bfs1_valid (first_tbl rules) first_tbl_sound fuel _ _ _ H (incl_refl _)); auto.
+    intros J' [<-|[]]. exists []. apply closure1_valid; [apply first_tbl_sound|].
+    intros i d a [E|[]]. inversion E; subst. constructor.
+  Qed.
+End Exec.
+
+(* the executable canonical LR(1) states: every look-ahead of a complete item of a non-root rule
+   is a look-ahead of the model at the LR(0) state reached by the same symbol string *)
+Theorem exec_lr1_subset_la rules tEND fuel A r0 rootnt start fuel1 S1 J :
+  build_lr0 rules [r0] fuel = Some A -> r0 < length rules ->
+  rule_at rules r0 = mkRule rootnt [NT start] ->
+  states1 rules r0 tEND fuel1 = Some S1 -> In J S1 ->
+  exists g, forall i a, In (i, length (rhs (rule_at rules i)), a) J -> i <> r0 ->
+    exists q, goto_star A 0 g = Some q /\
+              (forall it, In it J -> In (fst it) (closure_of A q)) /\
+              In (q, a, i) (la_triples (compute_relations rules [r0] tEND A)).
+Proof.
+  intros HB Hv Hr0 HS HJ. destruct (states1_valid rules r0 tEND fuel1 S1 J HS HJ) as (g & Hg).
+  exists g. intros i a Hin Hne.
+  pose proof (Hg _ _ _ Hin) as Hval.
+  destruct (valid_inv rules tEND fuel A r0 rootnt start HB Hr0 _ _ _ _ Hval) as ((q & Hq & _) & _).
+  exists q. split; auto. split.
+  - intros ((i', d'), a') Hit. simpl.
+    destruct (valid_inv rules tEND fuel A r0 rootnt start HB Hr0 _ _ _ _ (Hg _ _ _ Hit)) as ((q' & Hq' & Hit') & _).
+    congruence.
+  - eapply lr1_subset_la; eauto.
+Qed.
